@@ -73,6 +73,12 @@ CHECKS.update({
          "machine-checked proof in Coq (spec-tree equality by structural induction, strict parser round trip by induction over trees with explicit fuel) + extracted strict decoder run on implementation bytes + independent Python RFC 4511 decoder"),
 })
 
+CHECKS.update({
+ "C11": ("proof", "Coq theorems over the joint system of a client session and a server session of the session model (the same step / process_all that are compared with the implementation on every run) joined by two FIFO queues, for every finite interleaving of accepted client calls, accepted server calls that answer an outstanding request with a response of the matching kind, deliveries and refusals at closed endpoints: (1) the message arriving next at an open endpoint is always accepted unless it is a designed termination (unbind, notice of disconnection) - never 'unknown id', never KeyError, never 'bind with outstanding operations'; (2) whenever both queues are empty the two sides agree on the state (BEFORE_OPEN ~ OPENED) and on the outstanding and search id sets; proved by refinement to an abstract message-level protocol with a 24-clause inductive invariant (id freshness, no response after a final one, bind handshake phases). (3) the octets of any message sequence parse back to exactly those messages once and in order, for any chunking. Joint histories of the real client and server over byte pipes are checked on every run.",
+         "The queue-level theorems (1)-(2) and the byte-level theorems (3), C02 (chunking) and C12 (outgoing stream = encodings of accepted sends) are separate theorems: their composition into one statement about byte pipes is not mechanised. Messages are delivered one at a time (a batch is processed message by message: process_all_cons).",
+         "machine-checked proof in Coq (refinement to an abstract protocol, inductive invariant over all interleavings) + joint-simulation differential testing over byte pipes + delivery/agreement oracle"),
+})
+
 def main():
     m = {
         "version": 1,
